@@ -19,6 +19,8 @@ import PyElf.Proofs.ListsUnitLists
 import PyElf.Proofs.ListsCls
 import PyElf.Proofs.ListsFetch
 import PyElf.Proofs.ListsEnum
+import PyElf.Proofs.ListsLocScan
+import PyElf.Proofs.ListsLocWalk
 import PyElf.Props.TieC07
 namespace PyElf.Props.C07
 open PyElf PyElf.Spec PyElf.Spec.Lists PyElf.Proofs
@@ -239,19 +241,176 @@ theorem visited_offset_unit_referred (refs : List (Int × Model.Lists.Cu)) (k : 
     (h : Model.Lists.dictGet? (Model.Lists.cuMapOf refs) k = some cu) : (k, cu) ∈ refs :=
   ListsEnum.dictGet_cuMapOf_mem refs k cu h
 
-/-
-  `enumeration_exact` (location lists referenced by debugging entries) — NOT PROVED, correspondence only
-  (harness stream `sec`, call `iter` with what = loc):
+/-! ### `enumeration_exact` (location lists referenced by debugging entries): `iter_location_lists()`
 
-    iter_location_lists (cus) = for every distinct referenced list in increasing offset order: its view pairs
-                             followed by the list; gaps (unreferenced bytes, offset tables, padding at a unit's
-                             end) are skipped
-    (false of the tree before the fix `C07-loclists-trailing-gap`: IndexError on a unit block that ends in a gap).
+  The section is described by its referenced objects (`Spec.Lists.LocObj`: unreferenced bytes, view pairs, list) —
+  for .debug_loclists grouped in unit blocks (`LocUnit`: header with offset table, objects, unreferenced bytes at the
+  end).  `dec cu die` is the decoded form of a debugging entry (hypothesis `hdec`; `die_decoding_plain` and
+  `attr_value_loclistx` discharge it); `refs` are the references `Spec.Lists.dieLocRefs` finds in the entries of the
+  units of the section's generation, in `iter_CUs()` × `iter_DIEs()` order, each with its unit.
+  Well-formedness: every list entry and view pair is encodable (`wf`, `viewsOk`), the section is shorter than 2^63,
+  and `refsAgree`: every reference designates an object of the layout — with `DW_AT_GNU_locviews` pointing at its first
+  view pair exactly when the object has view pairs — and every object is referred to.  (Objects follow each other,
+  so they do not overlap, and a list is referenced either always with or always without views.)
+  Conclusion: the enumeration yields exactly the objects, in offset order, each as its view pairs followed by its
+  entries (`obsObjs`); gaps, offset tables and the bytes at a unit's end are skipped. -/
 
-  The model (`Model.Lists.scanDies`, `locSectionLoop`, `locUnitLoop`, `parseLocviewPairs`) mirrors the Python
-  loops with `for` over mutable state and two nested fuel loops; each list it fetches is covered by
-  `v4_loclist_roundtrip` / `v5_loclist_fetch`, the unit headers by `unit_header_roundtrip_loc`.
--/
+/-- what `iter_location_lists()` does with one debugging entry: exactly the references the decision table finds -/
+theorem die_refs_exact (env : Env) (secs : Model.Lists.Secs) (cu : Model.Lists.Cu) (st : Model.Lists.Scan)
+    (die : List Model.Lists.RawAttr) (d : List Model.Lists.Attr) (rs : List LocRef)
+    (hd : Model.Lists.dieAttrs env secs cu die = .ok d)
+    (hr : dieLocRefs cu.version (d.map ListsLocScan.toDie) = some rs) :
+    Model.Lists.scanDie env secs cu st die = .ok (rs.foldl (ListsLocScan.applyRef cu) st) :=
+  ListsLocScan.scanDie_refs env secs cu st die d rs hd hr
+
+/-- a debugging entry without indexed forms decodes to its raw values (discharges `hdec` below; indexed forms:
+    `attr_value_loclistx`) -/
+theorem die_decoding_plain (env : Env) (secs : Model.Lists.Secs) (cu : Model.Lists.Cu) (die : List Model.Lists.RawAttr)
+    (h : ∀ a ∈ die, a.form ≠ "DW_FORM_loclistx" ∧ a.form ≠ "DW_FORM_rnglistx") :
+    Model.Lists.dieAttrs env secs cu die
+      = .ok (Model.Lists.attrDict (die.map fun a => ⟨a.name, a.form, a.raw⟩)) :=
+  ListsLocScan.dieAttrs_plain env secs cu die h
+
+/-- `enumeration_exact_locations` (.debug_loc, DWARF 2–4): the lists are fetched at the referenced offsets whatever
+    lies between them (`gap`, `tail` are arbitrary bytes) -/
+theorem enumeration_exact_locations_v4 (env : Env) (secs : Model.Lists.Secs) (cfg : DwarfCfg) (l : Model.Lists.Lists)
+    (cus : List Model.Lists.Cu) (dec : Model.Lists.Cu → List Model.Lists.RawAttr → List Model.Lists.Attr)
+    (refs : List (LocRef × Model.Lists.Cu)) (objs : List (LocObj (List V4Loc))) (tail : Bytes) (outs : List (List Val))
+    (hS : l.S = Spec.dwarfStructs cfg) (ha : l.asz = cfg.asz) (hasz : 1 ≤ cfg.asz) (hv : l.version < 5)
+    (hd : l.data = encObjs (encV4Loc cfg.le cfg.asz) cfg.le objs ++ tail)
+    (hsmall : l.data.length < 2 ^ 63)
+    (hdec : ∀ cu ∈ cus, (decide (cu.version ≥ 5) == false) = true →
+      ∀ die ∈ cu.dies, Model.Lists.dieAttrs env secs cu die = .ok (dec cu die))
+    (hrefs : ListsLocScan.locRefs dec false cus = some refs)
+    (hobj : ∀ o ∈ objs, o.viewsOk = true ∧ ∀ x ∈ o.list, x.wf cfg.asz = true)
+    (hagree : refsAgree (refs.map (·.1)) ((layout (v4LocSize cfg.asz) 0 objs).map layoutRef) = true)
+    (hobs : obsObjs (fun off es => some (obsV4Loc cfg.asz off es)) (layout (v4LocSize cfg.asz) 0 objs) = some outs) :
+    Model.Lists.iterLocationLists env secs l cus = .ok outs :=
+  ListsLocWalk.iterLocationLists_v4 env secs cfg l cus dec refs objs tail outs hS ha hasz hv hd hsmall hdec hrefs hobj
+    hagree hobs
+
+/-- `enumeration_exact_locations` (.debug_loclists, DWARF 5): unit block after unit block; in each block the offset
+    table, the bytes between objects and the bytes at the block's end are skipped; each list is translated with the
+    address array of the unit that refers to it (`haddr`: what `get_addr_exact` gives).
+    (False of the tree before the fix `C07-loclists-trailing-gap`: IndexError on a last block that ends in a gap.) -/
+theorem enumeration_exact_locations_v5 (S : DwarfStructs) (secs : Model.Lists.Secs) (cfg : DwarfCfg)
+    (l : Model.Lists.Lists) (cus : List Model.Lists.Cu)
+    (dec : Model.Lists.Cu → List Model.Lists.RawAttr → List Model.Lists.Attr)
+    (refs : List (LocRef × Model.Lists.Cu)) (us : List LocUnit) (outs : List (List Val))
+    (hS : l.S = Spec.dwarfStructs cfg) (hv : 5 ≤ l.version)
+    (hd : l.data = encLocUnits cfg.le cfg.asz us)
+    (hsmall : l.data.length < 2 ^ 63)
+    (hdec : ∀ cu ∈ cus, (decide (cu.version ≥ 5) == true) = true →
+      ∀ die ∈ cu.dies, Model.Lists.dieAttrs (Model.dwarfEnv S) secs cu die = .ok (dec cu die))
+    (hrefs : ListsLocScan.locRefs dec true cus = some refs)
+    (hhdr : ∀ u ∈ us, u.hdr.wf (u.body cfg.le cfg.asz) = true)
+    (hobj : ∀ u ∈ us, ∀ o ∈ u.objs, o.viewsOk = true ∧ ∀ x ∈ o.list.2, x.wf lleKinds cfg.asz = true)
+    (hagree : refsAgree (refs.map (·.1)) ((layoutUnits cfg.le cfg.asz 0 us).map layoutRef) = true)
+    (haddr : ∀ rc ∈ refs, ∀ e ∈ layoutUnits cfg.le cfg.asz 0 us, rc.1 = layoutRef e →
+      ∀ i a, addrOf e.2.2.list.1 i = some a →
+        Model.Lists.cuAddr (Model.dwarfEnv S) secs (some rc.2) (.int i) = .ok (.int a))
+    (hobs : obsObjs (ListsLocWalk.obsL5 cfg.asz) (layoutUnits cfg.le cfg.asz 0 us) = some outs) :
+    Model.Lists.iterLocationLists (Model.dwarfEnv S) secs l cus = .ok outs :=
+  ListsLocWalk.iterLocationLists_v5 _ secs cfg l cus dec refs us outs TieC07.lle_codes hS hv hd hsmall hdec hrefs hhdr
+    hobj hagree haddr hobs
+
+/-- the references all come from units of the section's generation (a pre-v5 unit is ignored by the enumeration of
+    .debug_loclists and vice versa) -/
+theorem location_refs_generation (dec : Model.Lists.Cu → List Model.Lists.RawAttr → List Model.Lists.Attr)
+    (ver5 : Bool) (cus : List Model.Lists.Cu) (refs : List (LocRef × Model.Lists.Cu))
+    (h : ListsLocScan.locRefs dec ver5 cus = some refs) :
+    ∀ rc ∈ refs, rc.2 ∈ cus ∧ (decide (rc.2.version ≥ 5) == ver5) = true :=
+  ListsLocScan.locRefs_gen dec ver5 cus refs h
+
+/-! ### both generations present: `LocationListsPair` / `RangeListsPair` (what `DWARFInfo.location_lists()` /
+    `range_lists()` return when the old and the DWARF 5 section both exist) -/
+
+/-- with both sections present the factory returns a pair holding a version-4 object over the old section and a
+    version-5 object over the new one, both with the `DWARFInfo`'s structs -/
+theorem factory_pair (S : DwarfStructs) (asz : Nat) (d4 d5 : Bytes) :
+    Model.Lists.listsFactory S asz (some d4) (some d5)
+      = .pair ⟨⟨d4, S, asz, 4⟩, ⟨d5, S, asz, 5⟩⟩ := rfl
+
+/-- `pair_dispatch`: a request made for a unit is forwarded to the DWARF 5 section exactly when the unit's version
+    is ≥ 5, otherwise to the old section; without a unit it is refused -/
+theorem pair_dispatch_loc (env : Env) (secs : Model.Lists.Secs) (p : Model.Lists.ListsPair) (offset : Int)
+    (cu : Model.Lists.Cu) :
+    Model.Lists.pairGetLocationListAtOffset env secs p offset (some cu)
+      = Model.Lists.getLocationListAtOffset env secs (if cu.version ≥ 5 then p.new else p.old) offset (some cu) := rfl
+
+theorem pair_dispatch_rng (env : Env) (secs : Model.Lists.Secs) (p : Model.Lists.ListsPair) (offset : Int)
+    (cu : Model.Lists.Cu) :
+    Model.Lists.pairGetRangeListAtOffset env secs p offset (some cu)
+      = Model.Lists.getRangeListAtOffset env secs (if cu.version ≥ 5 then p.new else p.old) offset (some cu) := rfl
+
+theorem pair_no_unit (env : Env) (secs : Model.Lists.Secs) (p : Model.Lists.ListsPair) (offset : Int) :
+    Model.Lists.pairGetLocationListAtOffset env secs p offset none = .error .dwarfError
+      ∧ Model.Lists.pairGetRangeListAtOffset env secs p offset none = .error .dwarfError := ⟨rfl, rfl⟩
+
+/-- a DWARF 5 unit's location list comes from .debug_loclists — whatever .debug_loc holds (`d4`) -/
+theorem pair_loc_v5_unit (S : DwarfStructs) (secs : Model.Lists.Secs) (cfg : DwarfCfg) (d4 : Bytes)
+    (cu : Model.Lists.Cu) (addrs : List Nat) (pre rest : Bytes) (es : List Ent) (vs : List Val)
+    (hcu : 5 ≤ cu.version)
+    (hwf : ∀ e ∈ es, e.wf lleKinds cfg.asz = true) (hsmall : pre.length < 2 ^ 63)
+    (haddr : ∀ i a, addrOf addrs i = some a →
+      Model.Lists.cuAddr (Model.dwarfEnv S) secs (some cu) (.int i) = .ok (.int a))
+    (hsp : translateList (fun o e => Spec.Lists.translateLoc (addrOf addrs) cfg.asz o e) cfg.asz pre.length es = some vs) :
+    Model.Lists.pairGetLocationListAtOffset (Model.dwarfEnv S) secs
+        (Model.Lists.mkPair (Spec.dwarfStructs cfg) cfg.asz d4 (pre ++ encList cfg.le cfg.asz es ++ rest))
+        (pre.length : Int) (some cu) = .ok vs := by
+  have hc : cu.version ≥ 5 := hcu
+  rw [pair_dispatch_loc, if_pos hc]
+  exact v5_loclist_fetch S secs cfg _ cu addrs pre rest es vs rfl (Nat.le_refl 5) rfl hwf hsmall haddr hsp
+
+/-- a pre-DWARF-5 unit's location list comes from .debug_loc — whatever .debug_loclists holds (`d5`) -/
+theorem pair_loc_old_unit (env : Env) (secs : Model.Lists.Secs) (cfg : DwarfCfg) (d5 : Bytes)
+    (cu : Model.Lists.Cu) (pre rest : Bytes) (es : List V4Loc)
+    (hcu : cu.version < 5) (hasz : 1 ≤ cfg.asz)
+    (hwf : ∀ e ∈ es, e.wf cfg.asz = true) (hsmall : pre.length < 2 ^ 63) :
+    Model.Lists.pairGetLocationListAtOffset env secs
+        (Model.Lists.mkPair (Spec.dwarfStructs cfg) cfg.asz (pre ++ encV4Loc cfg.le cfg.asz es ++ rest) d5)
+        (pre.length : Int) (some cu) = .ok (obsV4Loc cfg.asz pre.length es) := by
+  have hc : ¬ (cu.version ≥ 5) := by omega
+  rw [pair_dispatch_loc, if_neg hc]
+  exact v4_loclist_roundtrip env secs cfg _ (some cu) pre rest es rfl rfl hasz (Nat.lt_succ_self 4) rfl hwf hsmall
+
+/-- … and the same for range lists -/
+theorem pair_rng_v5_unit (S : DwarfStructs) (secs : Model.Lists.Secs) (cfg : DwarfCfg) (d4 : Bytes)
+    (cu : Model.Lists.Cu) (addrs : List Nat) (pre rest : Bytes) (es : List Ent) (vs : List Val)
+    (hcu : 5 ≤ cu.version)
+    (hwf : ∀ e ∈ es, e.wf rleKinds cfg.asz = true) (hsmall : pre.length < 2 ^ 63)
+    (haddr : ∀ i a, addrOf addrs i = some a →
+      Model.Lists.cuAddr (Model.dwarfEnv S) secs (some cu) (.int i) = .ok (.int a))
+    (hsp : translateList (fun o e => Spec.Lists.translateRng (addrOf addrs) cfg.asz o e) cfg.asz pre.length es = some vs) :
+    Model.Lists.pairGetRangeListAtOffset (Model.dwarfEnv S) secs
+        (Model.Lists.mkPair (Spec.dwarfStructs cfg) cfg.asz d4 (pre ++ encList cfg.le cfg.asz es ++ rest))
+        (pre.length : Int) (some cu) = .ok vs := by
+  have hc : cu.version ≥ 5 := hcu
+  rw [pair_dispatch_rng, if_pos hc]
+  exact v5_rnglist_fetch S secs cfg _ (some cu) addrs pre rest es vs rfl (Nat.le_refl 5) rfl hwf hsmall haddr hsp
+
+theorem pair_rng_old_unit (env : Env) (secs : Model.Lists.Secs) (cfg : DwarfCfg) (d5 : Bytes)
+    (cu : Model.Lists.Cu) (pre rest : Bytes) (es : List V4Rng)
+    (hcu : cu.version < 5) (hasz : 1 ≤ cfg.asz)
+    (hwf : ∀ e ∈ es, e.wf cfg.asz = true) (hsmall : pre.length < 2 ^ 63) :
+    Model.Lists.pairGetRangeListAtOffset env secs
+        (Model.Lists.mkPair (Spec.dwarfStructs cfg) cfg.asz (pre ++ encV4Rng cfg.le cfg.asz es ++ rest) d5)
+        (pre.length : Int) (some cu) = .ok (obsV4Rng cfg.asz pre.length es) := by
+  have hc : ¬ (cu.version ≥ 5) := by omega
+  rw [pair_dispatch_rng, if_neg hc]
+  exact v4_rnglist_roundtrip env secs cfg _ (some cu) pre rest es rfl rfl hasz (Nat.lt_succ_self 4) rfl hwf hsmall
+
+/-- the remaining forwarding methods: the DWARF 5 object answers the unit-block API, enumeration over two
+    sections is refused -/
+theorem pair_forwarding (env : Env) (secs : Model.Lists.Secs) (p : Model.Lists.ListsPair) (offset : Int)
+    (cus : List Model.Lists.Cu) (h : Val) (cu : Option Model.Lists.Cu) (e : Val) :
+    Model.Lists.pairGetRangeListAtOffsetEx env p offset = Model.Lists.getRangeListAtOffsetEx env p.new offset
+      ∧ Model.Lists.pairRngIterCUs env p cus = Model.Lists.iterCUs env p.new false cus
+      ∧ Model.Lists.pairIterCURangeListsEx env p h = Model.Lists.iterCURangeListsEx env p.new h
+      ∧ Model.Lists.pairTranslateV5Entry env secs cu e = Model.Lists.translateV5Entry env secs cu e
+      ∧ Model.Lists.pairIterRangeLists = .error .dwarfError
+      ∧ Model.Lists.pairIterLocationLists = .error .dwarfError
+      ∧ Model.Lists.pairLocIterCUs = .error .dwarfError := ⟨rfl, rfl, rfl, rfl, rfl, rfl, rfl⟩
 
 /-! ### attribute classification -/
 
@@ -295,5 +454,40 @@ example : sortedDistinct [5, 3, 5, 1, 3] = [1, 3, 5] := by decide
 example : classify "DW_AT_location" "DW_FORM_sec_offset" 5 = .list := by decide
 example : classify "DW_AT_location" "DW_FORM_data4" 4 = .neither := by decide
 example : classify "DW_AT_data_member_location" "DW_FORM_data4" 2 = .list := by decide
+
+/-! non-vacuity of `enumeration_exact_locations_v4` / `_v5`: complete instances (view pairs, gaps, an offset table,
+    a trailing gap, a second (64-bit) unit block, a unit of the other generation that is ignored) -/
+
+example (env : Env) : Model.Lists.iterLocationLists env ⟨none, none, none⟩ ListsLocWalk.demoL [ListsLocWalk.demoCu, ListsLocWalk.demoCu5]
+    = .ok [[viewPair 2 1 2, locationEntry 5 11 1 2 [0x50] false, locBaseEntry 16 8 7], []] :=
+  enumeration_exact_locations_v4 env _ ListsLocWalk.demoCfg ListsLocWalk.demoL [ListsLocWalk.demoCu, ListsLocWalk.demoCu5] ListsLocWalk.demoDec
+    [((some 2, 5), ListsLocWalk.demoCu), ((none, 33), ListsLocWalk.demoCu)] ListsLocWalk.demoObjs [1, 2, 3] _ rfl rfl (by decide) (by decide) rfl (by decide)
+    (fun cu hcu hg die hdie => by
+      simp only [List.mem_cons, List.not_mem_nil, or_false] at hcu
+      rcases hcu with rfl | rfl
+      · exact ListsLocScan.dieAttrs_plain env _ _ die (ListsLocWalk.demo_plain die hdie)
+      · exact absurd hg (by decide))
+    rfl (by decide) (by decide) rfl
+
+example : (layoutUnits true 4 0 ListsLocWalk.demoUs).map layoutRef = [(none, 16), (some 28, 30)] := by decide
+
+example : ListsLocWalk.demoL5.data.length = 58 := by decide
+
+example (S : DwarfStructs) : Model.Lists.iterLocationLists (Model.dwarfEnv S) ⟨none, none, none⟩ ListsLocWalk.demoL5 [ListsLocWalk.demoCu, ListsLocWalk.demoCuV5]
+    = .ok [[locBaseEntry 16 5 0x1000, locationEntry 21 5 1 2 [0x50] false],
+           [viewPair 28 3 4, locationEntry 30 5 1 2 [0x50] false]] :=
+  enumeration_exact_locations_v5 S _ ListsLocWalk.demoCfg ListsLocWalk.demoL5 [ListsLocWalk.demoCu, ListsLocWalk.demoCuV5] ListsLocWalk.demoDec
+    [((none, 16), ListsLocWalk.demoCuV5), ((some 28, 30), ListsLocWalk.demoCuV5)] ListsLocWalk.demoUs _ rfl (by decide) rfl (by decide)
+    (fun cu hcu hg die hdie => by
+      simp only [List.mem_cons, List.not_mem_nil, or_false] at hcu
+      rcases hcu with rfl | rfl
+      · exact absurd hg (by decide)
+      · exact ListsLocScan.dieAttrs_plain _ _ _ die (ListsLocWalk.demo_plain5 die hdie))
+    rfl (by decide) (by decide) (by decide)
+    (fun rc _ e he _ i a h => by
+      have hall : ∀ e ∈ layoutUnits true 4 0 ListsLocWalk.demoUs, e.2.2.list.1 = [] := by decide
+      rw [hall e he] at h
+      simp [addrOf] at h)
+    rfl
 
 end PyElf.Props.C07
